@@ -1,9 +1,9 @@
 #!/usr/bin/env python3
-"""usage: gen/record_seed.py <seed name> [note]  : re-runs gen/run_seed.sh and appends the outcome to seeded/<name>/meta.json"""
+"""usage: gen/record_seed.py <seed name> [note] [check ids...]  : re-runs gen/run_seed.sh and appends the outcome to seeded/<name>/meta.json"""
 import json, subprocess, sys, time
 n = sys.argv[1]
 note = sys.argv[2] if len(sys.argv) > 2 else ""
-out = subprocess.run(["/verif/gen/run_seed.sh", n], capture_output=True, text=True).stdout
+out = subprocess.run(["/verif/gen/run_seed.sh", n] + sys.argv[3:], capture_output=True, text=True).stdout
 lines = [l for l in out.split("\n") if l.startswith(("VIOLATION", "C")) or "HOLDS" in l or "VIOLATED" in l]
 nviol = sum(1 for l in lines if l.startswith("VIOLATION"))
 nno = sum(1 for l in lines if l.startswith("VIOLATION") and "no-failing-input-found" in l)
